@@ -240,9 +240,9 @@ func main() {
 			k := rng.Intn(ne)
 			kind := 1 + rng.Intn(5)
 			special[k] = kind
-			mut = []string{"", "key-certified-for-another-as", "other-as-key-under-right-name",
-				"certificate-starts-after-timestamp", "certificate-ends-before-hop-expiry",
-				"certificate-ends-exactly-at-hop-expiry"}[kind]
+			mut = []string{"", "key-of-other-as(honest-id)", "key-of-other-as(right-name)",
+				"cert-starts-after-ts", "cert-ends-before-hop-expiry",
+				"cert-ends-at-hop-expiry"}[kind]
 		}
 		ps, tags := b.build(ne, exps, 0, 0, special)
 		info := append([]byte{}, ps.Info.Raw...)
@@ -275,7 +275,7 @@ func main() {
 					pre := &seg.PathSegment{Info: ps.Info, ASEntries: append([]seg.ASEntry{}, ps.ASEntries[:x]...)}
 					_, btags := b.extend(pre, e[:x], ne, exps, 0, 200, nil)
 					sp := append(append(append([]tag{}, e[:x]...), btags[x]), e[x+1:]...)
-					verify("splice-entry-of-sibling-branch", t0, b.tsRe, info, 0, sp)
+					verify("splice-sibling-branch-entry", t0, b.tsRe, info, 0, sp)
 					verify("sibling-branch-itself", t0, b.tsRe, info, 0, btags)
 				case 0:
 					if x == y {
@@ -297,7 +297,7 @@ func main() {
 				case 2:
 					f := ftags[y]
 					f.pb = clonePB(f.pb)
-					verify("insert-entry-of-another-segment", t0, b.tsRe, info, 0,
+					verify("insert-foreign-entry", t0, b.tsRe, info, 0,
 						append(e[:x:x], append([]tag{f}, e[x:]...)...))
 				case 3:
 					d := e[y]
@@ -307,11 +307,11 @@ func main() {
 					f := ftags[x]
 					f.pb = clonePB(f.pb)
 					e[x] = f
-					verify("replace-by-entry-of-another-segment", t0, b.tsRe, info, 0, e)
+					verify("replace-by-foreign-entry", t0, b.tsRe, info, 0, e)
 				case 5: // the whole other segment under this info
 					fe := make([]tag, len(ftags))
 					copy(fe, ftags)
-					verify("entries-of-another-segment-under-this-info", t0, b.tsRe, info, 0, fe)
+					verify("other-segment-under-this-info", t0, b.tsRe, info, 0, fe)
 				case 6: // boundary shift between a signature and the next entry's body
 					if ne == 1 || x == ne-1 {
 						continue
@@ -321,7 +321,7 @@ func main() {
 					e[x].pb.Signed.Signature = s[:len(s)-1]
 					e[x+1].pb.Signed.HeaderAndBody = append([]byte{last}, e[x+1].pb.Signed.HeaderAndBody...)
 					e[x].sg, e[x+1].hb = 1, 1
-					verify("shift-byte-from-signature-into-next-body", t0, b.tsRe, info, 0, e)
+					verify("shift-sig-byte-into-next-body", t0, b.tsRe, info, 0, e)
 				}
 			}
 		case 3: // bit flips on the wire form
